@@ -275,7 +275,7 @@ def r19_5(run, model):
             run.ob("R19.5", f"{f.qual}|name carries the counter", ok, site(f.file, m["sp"]),
                    f"format!({m.get('tokens', '')[:70]}) with counters {sorted(counters)}",
                    witness="a let-bound closure in a generic function instantiated at two types: both instances get closure_env_get_7, one struct definition replaces the other")
-    run.floor("name-formatting sites in counter-bumping functions", n, 2)
+    run.floor("name-formatting sites in counter-bumping functions", n, 1)
 
 
 def r19_6(run, model):
